@@ -367,6 +367,7 @@ def enumerate_instances(cls, table, rng, mode, thorough=False):
     # branches / jumps: the row describes the displacement (alignment 2); otherwise the symbol is an address
     pcrel = bool(labs) and not ints and row is not None and row["kind"] == "s" and row["align"] == 2
     out = []
+    cur = {"same": False}
 
     def add(vals, tag, sym=None, swept=None):
         place = PLACE
@@ -374,9 +375,10 @@ def enumerate_instances(cls, table, rng, mode, thorough=False):
             if sym is None:
                 sym = PLACE + (next((v["v"] for v in inside if v["label"] == "a"), 0) if pcrel else 0x800)
         out.append({"values": dict(vals), "sym": sym if labs else 0, "place": place if labs else 0, "tag": tag,
-                    "swept": swept})
+                    "swept": swept, "same": cur["same"]})
 
     for same in (False, True):
+        cur["same"] = same
         base = _defaults(sl, same)
         for n in ints:
             base[n] = good
@@ -409,6 +411,7 @@ def enumerate_instances(cls, table, rng, mode, thorough=False):
                     x = dict(base)
                     x[n] = c
                     add(x, "%s:csr" % n)
+    cur["same"] = False
     base = _defaults(sl, False)
     for n in ints:
         base[n] = good
@@ -466,7 +469,8 @@ def enc_records(prop, which, table, rng, mode, rig, thorough=False, paths=("enc"
             if sig in seen:
                 continue
             seen.add(sig)
-            issweep = inst["tag"].endswith("sweep") or inst["tag"] == "diag" or inst["tag"].startswith("random")
+            issweep = inst["tag"].endswith("sweep") or inst["tag"] == "diag" or inst["tag"].startswith("random") \
+                or inst.get("same", False)
             for path in (sweep_paths if issweep and sweep_paths is not None else paths):
                 if path == "enc":
                     out = observe_encode(ins, sym if haslab else None, place)
@@ -643,7 +647,7 @@ def llvm_crosscheck(ctx, byte_lists, limit=20000):
 
 # ---------------------------------------------------------------- C07: declared register sets
 NPLANS = 12  # = Len(RV32!PairPlan)
-QUICK_REGS = (0, 1, 2, 8, 9, 10, 15, 16, 31)
+QUICK_REGS = (0, 1, 2, 8, 10, 15, 31)
 
 
 def _xnums(regs):
@@ -715,7 +719,7 @@ def rw_records(prop, which, table, rng, thorough=False, kind="rw"):
                 skip("not encodable:%s" % cname)
                 continue
             k += 1
-            plans = list(range(1, NPLANS + 1)) if thorough else sorted({(k * 5 + j * 4) % NPLANS + 1 for j in range(3)})
+            plans = list(range(1, NPLANS + 1)) if thorough else sorted({(k * 5 + j * 6) % NPLANS + 1 for j in range(2)})
             suffix = "@%#x" % sym if LABEL in text else ""
             tk = tokenize(text)
             if tk is None:
